@@ -93,3 +93,7 @@ package security
 //@   ensures[C12] failed: result1 != nil ==> result0 == ""
 //@   site (github.com/go-jose/go-jose/v4/jwt.Claims).Validate requires[C12] verifiedClaims: arg0 == *dyn(#claimsStd, ptr(jwt.Claims)) && arg1.Issuer == issuer
 //@   nopanic[C10]
+
+//@ func GenerateRandomBytes
+//@   requires[C10] size: 0 <= n && n <= 65536
+//@   nopanic[C10]
